@@ -7,6 +7,8 @@
 //
 //	keep  = all | bounds:<minX>,<minY>,<maxX>,<maxY> | tags:<k>=<v>|<v>;<k>=          (k= : any value)
 //	obj   = n<id>:<x>,<y>:<tags> | w<id>:<refs>:<tags> | r<id>:<members>:<tags>     (x = lon, y = lat, integers)
+//	        | B | N | U      a <bounds>, <note>, <user> element at this place of the file (the scanner yields
+//	                         *osm.Bounds/*osm.Note/*osm.User; not objects of the extraction)
 //	refs  = - | <id>,<id>,...        members = - | n<id>,w<id>,r<id>,...
 //	tags  = - | <k>=<v>;<k>=<v>      (k, v small numbers; rendered as k="k<k>" v="v<v>")
 //
@@ -78,6 +80,8 @@ func tagsTok(t [][2]int) string {
 
 func (o obj) tok() string {
 	switch o.kind {
+	case 'B', 'N', 'U':
+		return string(o.kind)
 	case 'n':
 		return fmt.Sprintf("n%d:%d,%d:%s", o.id, o.x, o.y, tagsTok(o.tags))
 	case 'w':
@@ -118,6 +122,9 @@ func parseTags(s string) [][2]int {
 }
 
 func parseObj(t string) obj {
+	if t == "B" || t == "N" || t == "U" {
+		return obj{ref: ref{t[0], 0}}
+	}
 	p := strings.Split(t, ":")
 	if len(p) != 3 || len(p[0]) < 2 {
 		panic("bad object token " + t)
@@ -177,6 +184,12 @@ func buildXML(objs []obj) []byte {
 			fmt.Fprintf(&b, `<node id="%d" lat="%d" lon="%d" version="1">`, o.id, o.y, o.x)
 			xmlTags(&b, o.tags)
 			b.WriteString("</node>\n")
+		case 'B':
+			b.WriteString(`<bounds minlat="-10" minlon="-10" maxlat="10" maxlon="10"/>` + "\n")
+		case 'N':
+			b.WriteString(`<note lat="1" lon="1"><id>5</id><status>open</status></note>` + "\n")
+		case 'U':
+			b.WriteString(`<user id="7" display_name="verif"></user>` + "\n")
 		case 'w':
 			fmt.Fprintf(&b, `<way id="%d" version="1">`, o.id)
 			for _, r := range o.refs {
@@ -246,6 +259,9 @@ func objRef(o interface{}) ref {
 	}
 	return ref{'?', 0}
 }
+
+// watchdog for one extraction (normal ones take milliseconds; 100-pass chains well under a second)
+const watchdog = 8 * time.Second
 
 // steering: what to do around the real keep call for a given object
 type delay struct {
@@ -356,7 +372,7 @@ func extractOnce(xmlDoc []byte, keep gosm.KeepFunc, procs int, steer map[ref]del
 	}()
 	select {
 	case <-done:
-	case <-time.After(20 * time.Second):
+	case <-time.After(watchdog):
 		return extractRes{hang: true}
 	}
 	res.passes = rd.seeks
@@ -399,7 +415,7 @@ func guarded(f func()) (panicked string, hang bool) {
 	select {
 	case <-done:
 		return panicked, false
-	case <-time.After(20 * time.Second):
+	case <-time.After(watchdog):
 		return "", true
 	}
 }
@@ -510,7 +526,7 @@ func implLine(line string) (res string, fatal bool) {
 	// 1. sequential
 	sq := extractOnce(xmlDoc, keep, 1, nil)
 	if sq.hang {
-		return "timeout seq", true
+		return "timeout seq GOMAXPROCS=1", true
 	}
 	if sq.panic != "" {
 		return "panic seq " + sq.panic, false
@@ -553,7 +569,7 @@ func implLine(line string) (res string, fatal bool) {
 		}
 		r := extractOnce(xmlDoc, keep, procs, steer)
 		if r.hang {
-			return "timeout par", true
+			return fmt.Sprintf("timeout par GOMAXPROCS=%d", procs), true
 		}
 		if r.panic != "" {
 			return "panic par " + r.panic, false
@@ -609,6 +625,8 @@ func implLine(line string) (res string, fatal bool) {
 	return b.String(), false
 }
 
+var hangs int
+
 func impl() {
 	vproto.Lines(func(line string, out *bufioWriter) {
 		var res string
@@ -619,8 +637,14 @@ func impl() {
 		}
 		fmt.Fprintf(out, "%s => %s\n", line, res)
 		out.Flush()
+		// an extraction that hung leaves its goroutines blocked on the channel; they cost nothing, so carry on
+		// with the next line in this process (exiting would make the orchestrator blame the NEXT line for a crash).
+		// Give up only when hangs pile up.
 		if fatal {
-			os.Exit(3)
+			hangs++
+			if hangs > 12 {
+				os.Exit(3)
+			}
 		}
 	})
 }
